@@ -392,9 +392,11 @@ func runeLenIdx(v AbsVal) AbsVal {
 	return out
 }
 
-// failurePropagated: every caller of the scanner returns its own failure value straight away when the scanner
-// fails (`if !l.consumeX() { return false }`): the displacement of the failed scan is then part of the caller's
-// failing exit, which is judged there (R-RESTORE on the caller, or its documented exception).
+// failurePropagated: the failure of the scanner is dealt with by every caller: on the failure edge of each call
+// the caller either returns its own failure value straight away (`if !l.consumeX() { return false }`: the
+// displacement is then part of the caller's failing exit, judged there), or — in a scanner — every return it can
+// still reach yields a proper token (`consumeRemnantsBadURL(); return BadURLToken`), or — at the top level (Next,
+// RegExp) — every return it can still reach is the error token (`l.err = ...; return ErrorToken, nil`).
 func (e *Engine) failurePropagated(fn *ssa.Function) bool {
 	sites := callSitesOf(e.r, fn)
 	if len(sites) == 0 {
@@ -402,36 +404,89 @@ func (e *Engine) failurePropagated(fn *ssa.Function) bool {
 	}
 	for _, c := range sites {
 		g := c.Parent()
-		if !isFailureResult(g) {
-			return false
+		topLevel := !isFailureResult(g) // Next, RegExp: must turn the failure into the error token
+		if refs := c.Referrers(); refs == nil || len(*refs) == 0 {
+			continue // the result is discarded: the caller does not rely on "nothing was consumed" (IsIdent compares the end position)
 		}
-		ok := false
+		var fail *ssa.BasicBlock
 		for _, ref := range *c.Referrers() {
-			iff, isIf := ref.(*ssa.If)
-			cond := ssa.Value(c)
-			neg := false
-			if u, isU := ref.(*ssa.UnOp); isU && u.Op == token.NOT {
+			if iff, ok := ref.(*ssa.If); ok {
+				fail = iff.Block().Succs[1]
+			}
+			if u, ok := ref.(*ssa.UnOp); ok && u.Op == token.NOT {
 				for _, r2 := range *u.Referrers() {
-					if i2, is2 := r2.(*ssa.If); is2 {
-						iff, isIf, neg = i2, true, true
+					if iff, ok := r2.(*ssa.If); ok {
+						fail = iff.Block().Succs[0]
 					}
 				}
 			}
-			if !isIf || iff == nil {
-				continue
-			}
-			_ = cond
-			blk := iff.Block()
-			fail := blk.Succs[1] // call result false
-			if neg {
-				fail = blk.Succs[0]
-			}
-			if ret, isRet := lastInstr(fail).(*ssa.Return); isRet && len(fail.Instrs) == 1 && len(ret.Results) == 1 {
-				if k, isK := ret.Results[0].(*ssa.Const); isK && (k.Value == nil || k.Value.String() == "false" || k.Value.String() == "0") {
-					ok = true
+			if bo, ok := ref.(*ssa.BinOp); ok && (bo.Op == token.EQL || bo.Op == token.NEQ) {
+				// tt := l.consumeX(); tt != ErrorToken / tt == ErrorToken
+				other := bo.Y
+				if other == ssa.Value(c) {
+					other = bo.X
+				}
+				if k, isK := other.(*ssa.Const); isK && (k.Value == nil || k.Value.String() == "0" || k.Value.String() == "false") {
+					for _, r2 := range *bo.Referrers() {
+						if iff, ok := r2.(*ssa.If); ok {
+							if bo.Op == token.EQL {
+								fail = iff.Block().Succs[0]
+							} else {
+								fail = iff.Block().Succs[1]
+							}
+						}
+					}
 				}
 			}
 		}
+		if fail == nil {
+			return false
+		}
+		// every return reachable from the failure edge
+		seen := map[*ssa.BasicBlock]bool{}
+		ok := true
+		var walk func(b *ssa.BasicBlock, first bool)
+		walk = func(b *ssa.BasicBlock, first bool) {
+			_ = first
+			if seen[b] || !ok {
+				return
+			}
+			seen[b] = true
+			if ret, isRet := lastInstr(b).(*ssa.Return); isRet {
+				if len(ret.Results) == 0 {
+					ok = false
+					return
+				}
+				k, isK := ret.Results[0].(*ssa.Const)
+				isFail := isK && (k.Value == nil || k.Value.String() == "false" || k.Value.String() == "0")
+				if topLevel {
+					if !isFail {
+						ok = false // the top level goes on lexing after a failed scan that moved the cursor
+					}
+					return
+				}
+				if len(ret.Results) != 1 {
+					ok = false
+					return
+				}
+				_, tokenTyped := ret.Results[0].Type().(*types.Named)
+				switch {
+				case isFail:
+					// propagated (at once or after trying something else): part of the caller's own failing exit
+				case isK && tokenTyped:
+					// a proper token that covers the bytes of the failed scan (BadURLToken)
+				case !isK:
+					// the caller's result is computed: its failing outcome is judged at its own exit
+				default:
+					ok = false // `return true` after a failed scan that moved the cursor: lexing goes on from the wrong place
+				}
+				return
+			}
+			for _, s := range b.Succs {
+				walk(s, false)
+			}
+		}
+		walk(fail, true)
 		if !ok {
 			return false
 		}
